@@ -5,6 +5,7 @@ real run stops: for every termination condition (any And/Or/When tree of the bui
 setting, every objective and every stream of trial vectors.
 -/
 import MysticVerif.Proofs.ClosedLoop
+import MysticVerif.Proofs.ClosedLoopAlgs
 import MysticVerif.Props.C01
 import MysticVerif.Props.C01Ensemble
 import MysticVerif.Props.C05
@@ -108,6 +109,109 @@ theorem solve_de_evaluations (two : Bool) (o : Obj (List R) R) (cond : Term.Cond
 
 end DE
 
+
+section NMPW
+variable {R : Type} [Add R] [Sub R] [Mul R] [Div R] [Neg R] [LinearOrder R] [BEq R] [OfNat R 0] [OfNat R 2]
+open MysticVerif.PowellS
+
+/-- the number of iterations a run performed is 0, 1 or `n + 2` -/
+theorem iters_cases (k : Nat) : k = 0 ∨ k = 1 ∨ ∃ n, k = n + 2 := by
+  rcases k with _ | _ | n
+  · exact Or.inl rfl
+  · exact Or.inr (Or.inl rfl)
+  · exact Or.inr (Or.inr ⟨n, rfl⟩)
+
+/-- **C01-C04 wherever a Nelder-Mead `Solve` stops** (any termination condition tree, limits, coefficients, pure or
+in-place constraints `st`): as soon as one `_Step` ran, every stored vertex with a finite energy carries the objective
+at its constrained image, which was passed to the user's cost; every logged evaluation is a constrained in-box point
+logged with the user's cost; the simplex is sorted, the history non-increasing and its last entry is the best. -/
+theorem solve_nm_inv (o : Obj (Pt R) R) (h : Hyp o) (coef : Coef R) (st clip0 mkVal : Pt R → Pt R)
+    (hst : ∀ x, o.K (st x) = o.K x) (hclip : ∀ x, (o.useRange = true → o.inBox x = true) → clip0 x = x)
+    (cond : Term.Cond R) (x0 : Pt R) (fuel : Nat) (c : Ctl) (s0 : NM R R)
+    (hran : 1 ≤ (solve (nmAlg o coef st clip0 mkVal cond x0) fuel c s0 0 0).iters) :
+    NMInv o (solve (nmAlg o coef st clip0 mkVal cond x0) fuel c s0 0 0).st := by
+  rw [solve_state_is_open_loop]
+  rcases iters_cases (solve (nmAlg o coef st clip0 mkVal cond x0) fuel c s0 0 0).iters with h0 | h1 | ⟨n, hn⟩
+  · omega
+  · rw [h1, Closed.iterate_nmAlg_one]
+    exact NM.gen0_inv h 0 _
+  · rw [hn, Closed.iterate_nmAlg]
+    exact C01.nm_inv_reachable o h coef st hst 0 (clip0 x0) clip0 mkVal hclip n
+
+/-- **Nelder-Mead `Solve`: member clause, history clause** read off the invariant -/
+theorem solve_nm_members (o : Obj (Pt R) R) (h : Hyp o) (coef : Coef R) (st clip0 mkVal : Pt R → Pt R)
+    (hst : ∀ x, o.K (st x) = o.K x) (hclip : ∀ x, (o.useRange = true → o.inBox x = true) → clip0 x = x)
+    (cond : Term.Cond R) (x0 : Pt R) (fuel : Nat) (c : Ctl) (s0 : NM R R)
+    (hran : 1 ≤ (solve (nmAlg o coef st clip0 mkVal cond x0) fuel c s0 0 0).iters) :
+    let s := (solve (nmAlg o coef st clip0 mkVal cond x0) fuel c s0 0 0).st
+    (∀ p ∈ s.simplex, p.2 ≠ o.top → p.2 = o.energy (o.K p.1) ∧ (o.K p.1, o.raw (o.K p.1)) ∈ s.log) ∧
+    (∀ p ∈ s.log, p.2 = o.raw p.1 ∧ o.K p.1 = p.1 ∧ (o.useRange = true → o.inBox p.1 = true)) ∧
+    (s.stepLog.map Prod.snd).Pairwise (· ≥ ·) ∧ s.stepLog.getLast? = s.simplex.head? := by
+  intro s
+  have hi := solve_nm_inv o h coef st clip0 mkVal hst hclip cond x0 fuel c s0 hran
+  refine ⟨?_, hi.logOK, hi.hist, hi.lastIsBest⟩
+  intro p hp hne
+  have := hi.good p hp hne
+  exact ⟨this.1, this.2.1⟩
+
+/-- **C01-C03 wherever a Powell `Solve` stops** (any termination condition tree, limits, line-search oracle): as soon
+as one `_Step` ran, a finite best energy is cost + penalty at the reported best solution, which was passed to the
+user's cost, is left unchanged by the constraints and lies in the box; every logged evaluation is a constrained in-box
+point logged with the user's cost. -/
+theorem solve_pw_inv (o : Obj (Pt R) R) (h : Hyp o) (cfg : PwCfg R R) (ls : Nat → Pt R → Pt R → LsRec R)
+    (cond : Term.Cond R) (record : Bool) (x0 : Pt R) (direc : List (Pt R)) (hd : direc ≠ []) (fuel : Nat) (c : Ctl)
+    (s0 : Pw R R) (hran : 1 ≤ (solve (pwAlg o cfg ls cond record x0 direc) fuel c s0 0 0).iters) :
+    PwInv o (solve (pwAlg o cfg ls cond record x0 direc) fuel c s0 0 0).st := by
+  rw [solve_state_is_open_loop]
+  rcases iters_cases (solve (pwAlg o cfg ls cond record x0 direc) fuel c s0 0 0).iters with h0 | h1 | ⟨n, hn⟩
+  · omega
+  · rw [h1, Closed.iterate_pwAlg_one]
+    exact gen0_inv h cfg record x0 direc hd
+  · rw [hn, Closed.iterate_pwAlg]
+    exact reach_inv h cfg ls record x0 direc hd n
+
+theorem solve_pw_best (o : Obj (Pt R) R) (h : Hyp o) (cfg : PwCfg R R) (ls : Nat → Pt R → Pt R → LsRec R)
+    (cond : Term.Cond R) (record : Bool) (x0 : Pt R) (direc : List (Pt R)) (hd : direc ≠ []) (fuel : Nat) (c : Ctl)
+    (s0 : Pw R R) (hran : 1 ≤ (solve (pwAlg o cfg ls cond record x0 direc) fuel c s0 0 0).iters)
+    (hfin : (solve (pwAlg o cfg ls cond record x0 direc) fuel c s0 0 0).st.fval ≠ o.top) :
+    let s := (solve (pwAlg o cfg ls cond record x0 direc) fuel c s0 0 0).st
+    s.fval = o.add (o.raw s.x) (o.pen s.x) ∧ (s.x, o.raw s.x) ∈ s.log ∧ o.K s.x = s.x ∧
+      (o.useRange = true → o.inBox s.x = true) :=
+  (solve_pw_inv o h cfg ls cond record x0 direc hd fuel c s0 hran).best hfin
+
+/-- **C04 wherever a Powell `Solve` stops**: with a line search that never returns a worse point than its start
+(`LsMono`; discharged for the modelled Brent search in Props/C04Brent.lean) the best-energy history is non-increasing
+and bounded below by the reported best energy -/
+theorem solve_pw_history (o : Obj (Pt R) R) (h : Hyp o) (cfg : PwCfg R R) (ls : Nat → Pt R → Pt R → LsRec R)
+    (hm : LsMono o ls) (cond : Term.Cond R) (record : Bool) (x0 : Pt R) (direc : List (Pt R)) (hd : direc ≠ [])
+    (fuel : Nat) (c : Ctl) (s0 : Pw R R)
+    (hran : 1 ≤ (solve (pwAlg o cfg ls cond record x0 direc) fuel c s0 0 0).iters) :
+    let s := (solve (pwAlg o cfg ls cond record x0 direc) fuel c s0 0 0).st
+    s.hist.Pairwise (· ≥ ·) ∧ ∀ e ∈ s.hist, s.fval ≤ e := by
+  intro s
+  have key : HistInv s := by
+    show HistInv (solve (pwAlg o cfg ls cond record x0 direc) fuel c s0 0 0).st
+    rw [solve_state_is_open_loop]
+    rcases iters_cases (solve (pwAlg o cfg ls cond record x0 direc) fuel c s0 0 0).iters with h0 | h1 | ⟨n, hn⟩
+    · omega
+    · rw [h1, Closed.iterate_pwAlg_one]
+      exact (gen0_hist o cfg record x0 direc).1
+    · rw [hn, Closed.iterate_pwAlg]
+      exact reach_hist h cfg ls hm record x0 direc hd n
+  exact ⟨key.anti, key.le⟩
+
+/-- Nelder-Mead and Powell `Solve()` runs: `evaluations` grows by exactly the number of records appended to the
+evaluation monitor (= calls made to the user's cost) -/
+theorem solve_pw_evaluations (o : Obj (Pt R) R) (cfg : PwCfg R R) (ls : Nat → Pt R → Pt R → LsRec R)
+    (cond : Term.Cond R) (record : Bool) (x0 : Pt R) (direc : List (Pt R)) (fuel : Nat) (c : Ctl) (s0 : Pw R R)
+    (hmono : ∀ s k, (pwAlg o cfg ls cond record x0 direc).nlog s ≤
+      (pwAlg o cfg ls cond record x0 direc).nlog ((pwAlg o cfg ls cond record x0 direc).step s k)) :
+    (solve (pwAlg o cfg ls cond record x0 direc) fuel c s0 0 0).ctl.evals + s0.log.length
+      = c.evals + (solve (pwAlg o cfg ls cond record x0 direc) fuel c s0 0 0).st.log.length :=
+  solve_evaluations_are_the_log _ hmono fuel c s0
+
+end NMPW
+
 /-! non-vacuity: a closed-loop run over `Int` energies that is stopped by its generation limit -/
 
 /-- toy algorithm: the state is a counter, each iteration logs 2 evaluations, the condition never holds -/
@@ -118,5 +222,12 @@ example : (solve toyAlg 10 { maxiter := .val 3, maxfun := .val 100 } 0 0 0).iter
     (solve toyAlg 10 { maxiter := .val 3, maxfun := .val 100 } 0 0 0).msg = some .lim ∧
     (solve toyAlg 10 { maxiter := .val 3, maxfun := .val 100 } 0 0 0).ctl.gens = 3 ∧
     (solve toyAlg 10 { maxiter := .val 3, maxfun := .val 100 } 0 0 0).ctl.evals = 8 := by decide
+
+/-- non-vacuity of the Powell statements: a concrete closed-loop run (cost `x^2`, constraints `x ↦ max x 1`, scripted
+line searches, condition `VTR(0,0)`, generation limit 2) performs 4 `_Step`s, stops with a message and reports 1 -/
+example :
+    let out := solve (pwAlg C01.pwObj C01.pwCfg C01.pwLs (.prim 0 0 (.vtr 0 0)) true [5] [[-1]]) 10
+      { maxiter := .val 2, maxfun := .val 100, powell := true } (PowellS.gen0 C01.pwObj C01.pwCfg true [5] [[-1]]) 0 0
+    out.iters = 4 ∧ out.st.fval = 1 ∧ out.msg.isSome = true := by decide
 
 end MysticVerif.SolveProps
